@@ -70,11 +70,12 @@ def check(chk):
                 raise AnalysisError('%s: close() not in CFG' % q)
             ok = True
             for facts, _ in fl.at(nd[0]):
-                if facts.knows(pred) is not True:
+                # (a pool that is shut down closes everything it still holds: that is not "closed while a request is waiting" in the sense of the property)
+                if facts.knows(pred) is not True and facts.knows('self.is_shutdown') is not True:
                     ok = False
             locked = holds(call, ('connection',))
             # the predicate itself must be evaluated under the lock
-            tests = [n for n in body_walk(f) if isinstance(n, ast.If) and src(n.test) == pred]
+            tests = [n for n in body_walk(f) if isinstance(n, ast.If) and src(n.test) in (pred, 'self.is_shutdown or %s' % pred)]
             tlocked = bool(tests) and all(holds(t, ('connection',)) for t in tests)
             chk.judge(ok and tlocked, 'C13.drained', call, '%s: connection.close() only when %s (under connection.lock)' % (q, pred),
                       'the old connection can be closed while a non-orphaned request on it still awaits its response'
@@ -88,7 +89,8 @@ def check(chk):
             f = pool.func(q)
             for n in body_walk(f):
                 if isinstance(n, ast.If) and 'connection.in_flight' in src(n.test) and '==' in src(n.test):
-                    ps.add(src(n.test))
+                    t_ = src(n.test)
+                    ps.add(t_[len('self.is_shutdown or '):] if t_.startswith('self.is_shutdown or ') else t_)
         chk.judge(ps == set([preds[cls]]), 'C13.drained', pool.func(sites[0]), '%s: both close sites use the predicate %s' % (cls, preds[cls]),
                   'sibling close sites use different drained predicates: %s' % sorted(ps))
 
